@@ -1,0 +1,17 @@
+//go:build verif
+
+package strutil
+
+// Contracts for govc (contract-based deductive verification, see /verif/DESIGN.md).
+// Comment-only: with the tag off this file is not compiled, with it on it adds no code.
+
+// unsafe conversions: same bytes (the aliasing itself is not modelled: assumed contract)
+//@ func UnsafeStringToBytes
+//@   attr assumed unsafe
+//@   modifies nothing
+//@   ensures len(result) == len(s)
+
+//@ func UnsafeBytesToString
+//@   attr assumed unsafe
+//@   modifies nothing
+//@   ensures len(result) == len(b)
